@@ -244,6 +244,24 @@ PROPS = {
              "checks": {"quick": 4000, "thorough": 200000}, "shards": {"quick": 8, "thorough": 12}},
         ],
     },
+    "C17": {
+        "level": "exploration", "sim": True,
+        "technique": "property-based testing: (1) a canonical-JSON fingerprint of every object in every harness-owned informer cache is taken before and after each sync of the sync-level generators (C01, C02, C04, C07, C10, C11, C12, C13, C16 - incl. faulted runs) and any difference is a violation; (2) race-detector builds run generated sets of distinct parents from several concurrent workers (rolling configurations for the parallel per-revision hook calls, customize hooks with lazily created related informers through the real factory) and compare the final store with a sequential run of the same syncs",
+        "level_text": "part 1 is schedule independent; part 2 judges only interleavings that actually occur (the evidence reports how many syncs overlapped) - no claim of race freedom is made",
+        "rule": ("fingerprint carrier cases: the generators of C01/C02/C04/C07/C10/C11/C12/C13 (composite) and C01/C02/C10/C13/C16 (decorator), verdict restricted to cache mutations; race cases: 2-6 parents x 2-8 workers x 3-5 rounds x rolling/non-rolling x customize on/off x SSA on/off, every parent synced twice per round with a revisioned change after round 1; "
+                 "non-trivial = (part 1) the carrier case was non-trivial by its own rule, (part 2) at least two syncs overlapped in time; distinct = distinct choice sequences"),
+        "level_note": "A1-A6 as in DESIGN.md; the race detector only reports races on executed interleavings; harness-owned indexers, the simulator, the recording queue and the webhook log are themselves mutex-protected",
+        "jobs": [
+            {"name": "c17-fp-composite", "pkg": COMPOSITE, "tests": ["TestVerifC17Fingerprint"],
+             "checks": {"quick": 1600, "thorough": 80000}, "shards": {"quick": 6, "thorough": 8}},
+            {"name": "c17-fp-decorator", "pkg": DECORATOR, "tests": ["TestVerifC17Fingerprint"],
+             "checks": {"quick": 800, "thorough": 40000}, "shards": {"quick": 3, "thorough": 4}},
+            {"name": "c17-race-composite", "pkg": COMPOSITE, "race": True, "tests": ["TestVerifC17Race"],
+             "checks": {"quick": 48, "thorough": 2400}, "shards": {"quick": 3, "thorough": 8}, "timeout": {"quick": 900, "thorough": 3400}},
+            {"name": "c17-race-decorator", "pkg": DECORATOR, "race": True, "tests": ["TestVerifC17Race"],
+             "checks": {"quick": 24, "thorough": 1200}, "shards": {"quick": 2, "thorough": 4}, "timeout": {"quick": 900, "thorough": 3400}},
+        ],
+    },
     "C18": {
         "level": "exploration",
         "technique": "model-based property testing: bounded-exhaustive enumeration of operation sequences (subscribe, add handler with/without own resync period, remove handlers, close, outside object events) over a real SharedInformerFactory running against the API-server simulator's LIST/WATCH, rapid-random longer sequences, and the same operations from concurrent goroutines under the race detector; oracle = open-subscription model vs watch streams seen by the server, per-handler event logs (replay on add, at-least-once delivery while registered, nothing after removal)",
